@@ -659,3 +659,27 @@ package main
 //@   requires [C10] t != nil && sess != nil
 //@   modifies inferred
 //@   ensures [C10] attached: sess.multi == nil ==> (sess in t.sessions)
+
+// C16: the file endpoints hand a request to the media handler only after the API key and the credentials were checked.
+//@ func largeFileServe(wrt http.ResponseWriter, req *http.Request)
+//@   requires [C16] wrt != nil && req != nil && req.URL != nil
+//@   modifies *
+//@   assert at call media.Handler.Download [C16] api_key_checked: isValid
+//@   assert at call media.Handler.Download [C16] authenticated: uid != types.ZeroUid && challenge == nil && err == nil
+//@   assert at call media.Handler.Download [C16] get_only: req.Method == "GET"
+
+//@ func largeFileReceive(wrt http.ResponseWriter, req *http.Request)
+//@   requires [C16] wrt != nil && req != nil && req.URL != nil
+//@   modifies *
+//@   assert at call media.Handler.Upload [C16] api_key_checked: isValid
+//@   assert at call media.Handler.Upload [C16] post_or_put: req.Method == "POST" || req.Method == "PUT"
+//@   assert at call media.Handler.Upload [C16] no_challenge_pending: challenge == nil
+//@   assert at call media.Handler.Upload [C16] authenticated: uid != types.ZeroUid
+
+// Credentials: a user id is produced only by a successful authentication with no challenge pending, or by a live
+// session id.
+//@ func authHttpRequest(req *http.Request) (uid types.Uid, challenge []byte, err error)
+//@   requires [C16] req != nil
+//@   modifies *
+//@   ensures [C16] failed_no_uid: err != nil ==> uid == types.ZeroUid
+//@   ensures [C16] challenge_no_uid: challenge != nil ==> uid == types.ZeroUid
